@@ -132,6 +132,14 @@ impl Dn {
 		if use_scratch {
 			dn.push(scratch.clone(), DnValue::Utf8String("scratch".into()));
 		}
+		// ... and the type pushed last makes an earlier appearance that is removed again: a type
+		// that was present, went away and comes back is a new arrival at the end
+		if let Some((t_last, _)) = self.0.last() {
+			if self.0.iter().filter(|(t, _)| t == t_last).count() == 1 {
+				dn.push(t_last.real(), DnValue::Utf8String("earlier".into()));
+				dn.remove(t_last.real());
+			}
+		}
 		for (t, v) in &self.0 {
 			dn.push(t.real(), v.real()?);
 		}
@@ -147,6 +155,19 @@ impl Dn {
 			.map(|(t, v)| list(&[DnT::of_real(t).sexp(), DnV::of_real(v).sexp()]))
 			.collect();
 		tagged("dn", &items)
+	}
+	/// what the pushes settle into by `push`'s documented rule alone, kept apart from the real
+	/// container: a type pushed again keeps its place and takes the new value
+	pub fn settled(&self) -> Dn {
+		let mut out: Vec<(DnT, DnV)> = Vec::new();
+		for (t, v) in &self.0 {
+			let t = DnT::of_real(&t.real());
+			match out.iter_mut().find(|(u, _)| *u == t) {
+				Some(slot) => slot.1 = v.clone(),
+				None => out.push((t, v.clone())),
+			}
+		}
+		Dn(out)
 	}
 	pub fn sexp(&self) -> String {
 		match self.real() {
